@@ -13,6 +13,7 @@ RULE = (
 )
 ASSUMPTIONS = [
     "power-of-two factors are exact in binary floating point, so (a) and (b) are compared bitwise",
+    "arbitrary-factor twins are judged only when the permeate-composition map is locally contractive (L < 0.9) at every reported step - otherwise the iteration ends at a last-bit-dependent iterate - and the trajectory does not run away",
     "for arbitrary factors the two runs differ by rounding only: 1e-11 relative plus 1e-12 x steps x the measured conditioning of the trajectory (1/min(w,1-w), 1/min(y,1-y), P*p_feed/|J|), capped at 1e-6",
 ]
 SHARD_TIMEOUT = {"quick": 1500, "thorough": 14000}
@@ -132,6 +133,8 @@ def run_shard(spec, rep):
             st, tw = sc.run(conditions=scaled_conditions(sc, k, k))
             if st == "ok" and proc.runaway(base, sc.m0):
                 rep.count("arbitrary_factor_twin_skipped(runaway trajectory)")
+            elif st == "ok" and proc.non_contractive(sc, base):
+                rep.count("arbitrary_factor_twin_skipped(non-contractive fixed-point map at some step)")
             elif st == "ok":
                 twins += 1
                 compare(rep, "area and feed x k: intensive series unchanged, masses and heats x k (1e-11)", case, base, tw, k, False,
